@@ -339,7 +339,10 @@ pub fn run(seed: u64, count: usize, outdir: &str, jit: bool) -> std::io::Result<
         *hist.entry(format!("{}-{}", if use_jit { "jit" } else { "vm" }, if interval_mode { "interval" } else { "point" })).or_default() += 1;
         // ---- property oracle
         let kindtag = format!("backend={} mode={} n={n} m={m} outputs={}", if use_jit { "jit" } else { "vm" }, if interval_mode { "interval" } else { "point" }, dag.roots.len());
-        if text.contains("s1 err") || text.contains("s2 err") {
+        // a register budget below 3 may fail loudly (C01); it must never miscompile
+        let small_ok = (text.contains("s1 err") && m < 3) || (text.contains("s2 err") && n < 3);
+        if small_ok {
+        } else if text.contains("s1 err") || text.contains("s2 err") {
             fails += 1;
             writeln!(oracle, "FAIL case={ci} kind=simplify-panic {kindtag}").unwrap();
         } else if text.contains("badtrace") {
